@@ -38,12 +38,16 @@ def run_family(ctx, thorough):
     # the GroupWalk counterexample on real files (a group loaded once per path): appended as two more cases
     dtrace, dout = ctx.drive("dagopen", None, trace_name="dagopen_trace.ndjson")
     H.log(dout.strip())
+    dag_cases = {}
     with open(trace, "a") as f, open(dtrace) as g:
         for line in g:
             e = json.loads(line)
+            if e.get("op") == "dag":
+                dag_cases[e["case"]] = {"family": e.get("family", "group-dag"), "sb": e.get("sb")}
             e["case"] = len(cases) + e["case"]
             f.write(json.dumps(e) + "\n")
-    cases = cases + [{"family": "group-dag", "sb": 0}, {"family": "group-dag", "sb": 2}]
+    # the GroupWalk counterexample on real files (hard-linked groups; chunk index nodes shared between parents)
+    cases = cases + [dag_cases.get(i, {"family": "dag", "sb": None}) for i in range(max(dag_cases) + 1 if dag_cases else 0)]
     verdict, _ = ctx.validate("HdrChainTrace.tla", "HdrChain_trace.cfg", trace)
     st = verdict["stats"]
     if st["wellformed"] + len(verdict["bad"]) == 0 or st["multicont"] == 0 and not verdict["bad"]:
